@@ -988,7 +988,10 @@ class PyExec:
                     else:       # an opaque value determined by (sequence, bounds, step)
                         yield s, PObj('SteppedSlice', base=o, lo=vals[0], hi=vals[1], step=r[0][1])
                     continue
-                yield s, self.slice(o, vals[0], vals[1], n)
+                self.pending_facts = []
+                sl = self.slice(o, vals[0], vals[1], n)
+                s.pc.extend(self.pending_facts)
+                yield s, sl
                 continue
             for s2, k in self.ev(n.slice, s):
                 if isinstance(k, Exc):
@@ -1008,6 +1011,11 @@ class PyExec:
             if (lo is None or lo >= 0) and hi >= 0:
                 lo = lo or 0
                 return SV(z3.SubString(t, lo, hi - lo), 'str')
+        if ty_of(o) == 'str':
+            # symbolic bounds: slicing never raises; the result is some substring (over-approximation)
+            r = self.fresh('sliced', 'str')
+            self.pending_facts.append(z3.And(z3.Contains(term(o), r.t), z3.Length(r.t) <= z3.Length(term(o))))
+            return r
         raise PyNotSupported("slice %r[%r:%r] (line %d)" % (o, lo, hi, n.lineno))
 
     def index(self, o, k, st, n):
